@@ -157,6 +157,19 @@ KINDS = [
     G('kinds-cycle', [Rule('M', Asg('es', '+=', Ref('A'))),
                       Rule('A', A(Ref('B'), Ref('N'))),
                       Rule('B', A(S(Str('('), Ref('A'), Str(')')), Ref('Q'))), N_, Q_], tags=['kinds']),
+    # the rule kind of P is only known in a later pass of the rule-type fixpoint
+    G('kinds-paren-cycle', [Rule('M', Asg('e', '=', Ref('E'))), Rule('E', A(Ref('P'), Ref('V'))),
+                            Rule('P', S(Str('('), Ref('E'), Str(')'))),
+                            Rule('V', Asg('v', '=', INT))], tags=['kinds']),
+    # a reference to another abstract rule next to a second non-terminal
+    G('kinds-match-then-abstract', [Rule('M', Asg('es', '+=', Ref('A'))),
+                                    Rule('A', A(S(Ref('W'), Ref('B')), Ref('Q'))),
+                                    Rule('W', S(Str('#'), INT)), Rule('B', A(Ref('N'), Ref('R'))), N_, Q_,
+                                    Rule('R', S(Str('r'), Asg('z', '=', ID)))], tags=['kinds']),
+    G('kinds-abstract-then-common', [Rule('M', Asg('es', '+=', Ref('A'))),
+                                     Rule('A', A(S(Ref('B'), Str(':'), Ref('Q')), Ref('Q'))),
+                                     Rule('B', A(Ref('N'), Ref('R'))), N_, Q_,
+                                     Rule('R', S(Str('r'), Asg('z', '=', ID)))], tags=['kinds']),
     G('kinds-diamond', [Rule('M', Asg('es', '+=', Ref('A'))),
                         Rule('A', A(Ref('B'), Ref('C'))), Rule('B', A(Ref('Q'), Ref('N'))),
                         Rule('C', A(Ref('N'), Ref('R'))), N_, Q_,
